@@ -50,6 +50,13 @@ def streams_for(prop):
         from fractions import Fraction
         S.append(dict(name="dsm", gen=gen_dsm.gen_dsm, impl=impl_dsm.run, oracle=ref_dsm.CHECKS[prop],
                       mode="spec", abs_tol=Fraction(1, 10 ** 9)))
+    elif prop == "C17":
+        import gen_dsmhist
+        import impl_dsmhist
+        import ref_dsm
+        from fractions import Fraction
+        S.append(dict(name="dsm-history", gen=gen_dsmhist.gen_dsmhist, impl=impl_dsmhist.run,
+                      oracle=ref_dsm.CHECKS["C17"], mode="spec", abs_tol=Fraction(1, 10 ** 9)))
     elif prop == "C14":
         import gen_dims
         import ref_dims
@@ -68,6 +75,7 @@ PROPS = {
     "C09": dict(title="cohort tables"),
     "C10": dict(title="inverse models, solver agreement"),
     "C16": dict(title="causal, linear, label-independent"),
+    "C17": dict(title="recompute reflects current inputs"),
     "C04": dict(title="storage order independence"),
     "C05": dict(title="assignment keeps dims, sums by label"),
     "C06": dict(title="indexing by item labels"),
